@@ -854,6 +854,64 @@ func TestC09Table(t *testing.T) {
 		}
 		shared := len(T) - len(offsetOf)
 		labels := []string{fmt.Sprintf("keys:%d", min(len(T), 5))}
+		// the same table as another producer may lay it out: records sorted
+		// (the format requires that), the distinct subtables stored in any
+		// order, back to back or with padding, identical ones stored once or
+		// several times.  The decoder must return the same table.
+		if len(T) > 0 && rapid.Bool().Draw(t, "foreignLayout") {
+			keys := make([]cmap.Key, 0, len(T))
+			for k := range T {
+				keys = append(keys, k)
+			}
+			sort.Slice(keys, func(i, j int) bool {
+				a, b := keys[i], keys[j]
+				if a.PlatformID != b.PlatformID {
+					return a.PlatformID < b.PlatformID
+				}
+				if a.EncodingID != b.EncodingID {
+					return a.EncodingID < b.EncodingID
+				}
+				return a.Language < b.Language
+			})
+			distinct := map[string]bool{}
+			var order []string
+			for _, k := range keys {
+				if !distinct[string(T[k])] {
+					distinct[string(T[k])] = true
+					order = append(order, string(T[k]))
+				}
+			}
+			order = rapid.Permutation(order).Draw(t, "storageOrder")
+			pad := rapid.SampledFrom([]int{0, 0, 0, 1, 2, 4}).Draw(t, "padding")
+			hdr := 4 + 8*len(keys)
+			body := []byte{}
+			at := map[string]int{}
+			for _, sub := range order {
+				at[sub] = hdr + len(body)
+				body = append(body, sub...)
+				body = append(body, make([]byte, pad)...)
+			}
+			foreign := []byte{0, 0, byte(len(keys) >> 8), byte(len(keys))}
+			for _, k := range keys {
+				off := at[string(T[k])]
+				foreign = append(foreign, byte(k.PlatformID>>8), byte(k.PlatformID), byte(k.EncodingID>>8), byte(k.EncodingID),
+					byte(off>>24), byte(off>>16), byte(off>>8), byte(off))
+			}
+			foreign = append(foreign, body...)
+			var T3 cmap.Table
+			if pn := guard.Try(func() { T3, err = cmap.Decode(foreign) }); pn != nil || err != nil {
+				fail("Decode of the same table with its %d distinct subtables stored in another order (padding %d) fails: %v %v\n  bytes %s", len(order), pad, err, pn, hexdump(foreign))
+			}
+			if len(T3) != len(T) {
+				fail("Decode of the re-ordered table has %d keys, want %d", len(T3), len(T))
+			}
+			for k, v := range T {
+				if v3, ok := T3[k]; !ok || !bytes.Equal(v, v3) {
+					fail("re-ordered table: key %v lost or changed", k)
+				}
+			}
+			labels = append(labels, fmt.Sprintf("foreign-layout:padding-%d", pad))
+		}
 		if shared > 0 {
 			labels = append(labels, "shared-subtables")
 		}
